@@ -55,11 +55,11 @@ fn operator_table(rng: &mut Rng) -> Project {
 fn pgen_config(prop: &str, seed: u64, rng: &mut Rng) -> GenConfig {
   let mut cfg = GenConfig::default_for(seed);
   match prop {
-    "C01" => {
-      if rng.chance(1, 2) {
-        cfg.enum_heavy = true;
-      }
-    }
+    "C01" => match rng.below(3) {
+      0 => cfg.enum_heavy = true,
+      1 => cfg.loop_heavy = true,
+      _ => {}
+    },
     "C03" => {
       if rng.chance(1, 3) {
         cfg.string_pool = StringPool::Nasty;
@@ -88,6 +88,15 @@ fn gen_case(prop: &str, seed: u64, i: u64, corpus: &Corpus) -> Case {
     p.modules.extend(corpus.tests.iter().cloned());
     return Case { kind: "corpus".into(), label: "tests.AllTests".into(), user: p, entry: "tests.AllTests".into(), features: BTreeSet::new() };
   }
+  if i >= 2 {
+    // reproducers of defects found earlier: a fixed regression workload
+    let regs = crate::corpus::regressions();
+    if let Some((n, t)) = regs.get((i - 2) as usize) {
+      let mut p = Project::default();
+      p.modules.push(("Main".into(), t.clone()));
+      return Case { kind: "regression".into(), label: n.clone(), user: p, entry: "Main".into(), features: BTreeSet::new() };
+    }
+  }
   let table_every = if prop == "C04" { 12 } else { 60 };
   if i % table_every == 1 {
     let p = operator_table(&mut rng);
@@ -114,6 +123,12 @@ fn gen_case(prop: &str, seed: u64, i: u64, corpus: &Corpus) -> Case {
     return Case { kind: "accepted-mutant".into(), label: format!("{}: {d}", f.0), user: p, entry: "mut.Main".into(), features: BTreeSet::new() };
   }
   let pseed = seed.wrapping_mul(1_000_003).wrapping_add(i);
+  if prop != "C03" && i % 5 == 3 {
+    // counted-loop family aimed at the loop optimizer (no values near the 32-bit limits: source-level
+    // overflow is undefined for the reference and wraps differently in TypeScript)
+    let g = crate::loopgen::generate(pseed, false);
+    return Case { kind: "loop-family".into(), label: format!("loopgen seed {pseed}"), user: g.project, entry: g.entry, features: g.shapes.iter().cloned().collect() };
+  }
   let cfg = pgen_config(prop, pseed, &mut rng);
   let g = pgen::generate(pseed, &cfg);
   Case { kind: "generated".into(), label: format!("pgen seed {pseed}"), user: g.project, entry: g.entry, features: g.features }
@@ -283,6 +298,14 @@ fn worker(prop: &str, ctx: WorkerCtx) {
         if symptom.starts_with("wasm-differs") {
           use samlang_optimization::verif as hook;
           let mut attributed = None;
+          // narrowest first: only the guard operator of the eliminated loop is corrected
+          hook::set_loop_guard_operator_corrected(true);
+          let o2 = diffexec::run_all_but_ts(&case.user, &case.entry, &lim);
+          hook::set_loop_guard_operator_corrected(false);
+          if o2.wasm_trace.is_some() && diffexec::judge_c01(&o2).is_none() {
+            fails.push(json!({"sig": "wasm-differs:caused-by:loop-guard-operator-of-eliminated-induction-variable", "what": format!("{what} (agrees once induction variable elimination rebuilds the guard with the matching operator instead of `<`)"), "replay": diffexec::render_project(&case.user)}));
+            continue;
+          }
           for (mask, name) in [(hook::LOOP_INDUCTION_VARIABLE_ELIMINATION, "loop-induction-variable-elimination"), (hook::LOOP_ALGEBRAIC_OPTIMIZATION, "loop-algebraic-optimization")] {
             hook::set_disabled_loop_subpasses(mask);
             let o2 = diffexec::run_all_but_ts(&case.user, &case.entry, &lim);
